@@ -935,6 +935,11 @@ impl CommitEnv for LsmCommitEnv {
 			processed_batch.add_record(entry.kind, entry.key.clone(), encoded_value, timestamp)?;
 		}
 
+		#[cfg(surrealkv_verif)]
+		if crate::verif::failpoint("commit.log_append", &[("seq", seq_num)]) {
+			return Err(Error::Other("verif: injected commit log failure".to_string()));
+		}
+
 		// Write to WAL for durability
 		let enc_bytes = processed_batch.encode()?;
 		let mut wal_guard = self.core.wal.write();
@@ -949,6 +954,11 @@ impl CommitEnv for LsmCommitEnv {
 
 	/// Apply batch to memtable with retry on arena full.
 	fn apply(&self, batch: &Batch) -> Result<()> {
+		#[cfg(surrealkv_verif)]
+		if crate::verif::failpoint("commit.apply", &[("seq", batch.starting_seq_num)]) {
+			return Err(Error::Other("verif: injected apply failure".to_string()));
+		}
+
 		// Try to add to current memtable
 		let result = {
 			let active_memtable = self.core.active_memtable.read()?;
